@@ -4,8 +4,10 @@
 //! against an affine group law over `num-bigint` (module `big`).
 mod big;
 mod bn;
+mod cover;
 mod curves;
 mod ed;
+mod extra;
 mod jj;
 mod secp;
 mod wei;
@@ -68,18 +70,23 @@ fn main() {
     }
     let only = std::env::var("C11_ONLY").unwrap_or_default();
     let want = |s: &str| only.is_empty() || only.split(',').any(|x| x == s);
+    cover::emit(&mut ctx);
     if want("jj") {
         jj::run(&mut ctx);
+        extra::jj_extra(&mut ctx);
     }
     if want("g1") {
         wei::run::<curves::G1>(&mut ctx);
+        extra::g1_serde(&mut ctx);
     }
     if want("g2") {
         wei::run::<curves::G2>(&mut ctx);
+        extra::g2_serde(&mut ctx);
     }
     if want("bn1") {
         wei::run::<curves::Bn1>(&mut ctx);
         bn::run::<curves::Bn1>(&mut ctx);
+        extra::bn_raw_serde(&mut ctx);
     }
     if want("bn2") {
         wei::run::<curves::Bn2>(&mut ctx);
